@@ -433,10 +433,52 @@ func checkC02(c *Ctx) {
 	if gimpl != nil {
 		c.R.Fn(c.fname(gimpl))
 		ok, detail := false, "no Seek call found"
-		for _, cl := range core.CallsIn(gimpl) {
+		for _, cl := range c.callsDeep(gimpl, 2) { // in Get itself or in the helper that positions the reader (readerAt(offset, whence))
 			if cl.Obj != nil && cl.Obj.Name() == "Seek" && len(cl.Args()) == 2 {
-				whence, wok := constInt(cl.Args()[1])
-				if conversionsOnly(cl.Args()[0]) == ssa.Value(gimpl.Params[paramIndexOfType(gimpl, "uint64")]) && wok && whence == 0 {
+				// a helper's parameter is what Get passes for it at its own call of the helper
+				bindIn := func(v ssa.Value) ssa.Value {
+					v = conversionsOnly(v)
+					for hop := 0; hop < 3; hop++ {
+						prm, ok := v.(*ssa.Parameter)
+						if !ok || prm.Parent() == gimpl {
+							return v
+						}
+						found := false
+						for _, site := range c.callsDeep(gimpl, 2) {
+							if site.Static == prm.Parent() {
+								if i := paramIdx(prm); i >= 0 && i < len(site.Common.Args) {
+									v, found = conversionsOnly(site.Common.Args[i]), true
+									break
+								}
+							}
+						}
+						if !found {
+							return v
+						}
+					}
+					return v
+				}
+				whence, wok := constInt(bindIn(cl.Args()[1]))
+				// the reader that is positioned was opened for this read (log.Reader() called on the way), not one kept
+				// in the store and shared with the consumer: a look-up would move the cursor the consumer reads from
+				ownReader := false
+				if cl.Common != nil && cl.Common.Value != nil {
+					depReaches(cl.Common.Value, func(x ssa.Value) bool {
+						if rc, isCall := x.(*ssa.Call); isCall {
+							if rcl := core.CallOf(rc); rcl != nil && rcl.Obj != nil && rcl.Obj.Name() == "Reader" {
+								for _, g := range c.funcsDeep(gimpl, 2) {
+									if rc.Parent() == g {
+										ownReader = true
+									}
+								}
+							}
+						}
+						return false
+					})
+				}
+				if !ownReader {
+					detail = "the reader that Get positions is not opened by Get itself (a reader kept in the store is shared with the consumer: every look-up moves the cursor the consumer reads from, entries are skipped or handed over twice)"
+				} else if bindIn(cl.Args()[0]) == ssa.Value(gimpl.Params[paramIndexOfType(gimpl, "uint64")]) && wok && whence == 0 {
 					ok, detail = true, "Seek(int64(offset), io.SeekStart)"
 				} else {
 					detail = "Seek does not receive the offset parameter unchanged from the start of the log: " + short(core.Term(cl.Args()[0]), 80)
